@@ -7,10 +7,10 @@ Net:  {"labels": ["A", …], "rxns": [{"id": "r_1", "rule": "r", "r": [[species 
 
 IR search (`SynKitModel/CrnIR.lean`, mirror of `CRNCanonicalizer._search`):
 * `crn.ir {graph, node_keys, edge_keys, leaves?}` → every stage of `_canon`:
-  `wfd`, `attr_ok` (`CrnAttrOK`), `defined` (false where the code raises `StopIteration`: empty graph and
-  no node keys), `initial` (`_init_part`), `refined` (`_refine` of it), `order` (`canonical_perm`, `[]`
-  when undefined), `label` (`best["label"]` structured, `null` when undefined), `perms`
-  (`sample_permutations`, in visiting order), `count` (`automorphism_count`), `orbits_raw`
+  `wfd`, `attr_ok` (`CrnAttrOK`), `defined` (always `true` since repair F39: `_init_part` gives the empty
+  graph no cell, the search has the one leaf `[]`; kept for protocol compatibility), `initial`
+  (`_init_part`), `refined` (`_refine` of it), `order` (`canonical_perm`), `label` (`best["label"]`
+  structured), `perms` (`sample_permutations`, in visiting order), `count` (`automorphism_count`), `orbits_raw`
   (`_orbits_from_perms(perms)` as the merging leaves it), `orbits` (the same as a sorted partition),
   `graph` (`canon_graph` = `nx.relabel_nodes(G, {v: i + 1})`), and with `"leaves": true` also `n_leaves`
   and `leaves`: every leaf `{prefix, order, label}` of the search tree in visiting order.
@@ -88,7 +88,7 @@ def irJson (sel : SelD) (g : LGraph) (withLeaves : Bool) : Json :=
   Json.mkObj ([
     ("wfd", toJson (decide (WFD g))),
     ("attr_ok", toJson (decide (CrnAttrOK sel g))),
-    ("defined", toJson (decide (CrnDefined sel g))),
+    ("defined", toJson true),
     ("initial", partJson p0),
     ("refined", partJson (crnRefine sel g p0)),
     ("order", toJson o),
